@@ -553,27 +553,37 @@ theorem empty_error_only_from_empty_reason (op : Op) (R : List (Plugin C)) (c : 
       injection h with h; subst h; exact ⟨u, ct, hh⟩
     · cases h
 
-/-- FULL statement, which does NOT hold on this tree (see `refusal_reported_witness`): whenever the
-    chain refuses, the `Error` member sent to the peer (default `detailedErrorsToClient = true`) is
-    non-empty, i.e. the peer is told that the operation failed. -/
-def RefusalReportedFull : Prop :=
-  ∀ (op : Op) (R : List (Plugin Content)) (c : Content) (msg summary : Str),
-    (gated op R c).1 = .error msg → respError true summary msg ≠ []
+/-- FULL statement: whenever the chain refuses, the `Error` member sent to the peer is non-empty,
+    i.e. the peer is told that the operation failed.  (All summaries passed by the call sites are
+    non-empty string constants: "register control error", "new proxy [..] error", "invalid ping",
+    "invalid NewWorkConn", "register visitor conn error".) -/
+def RefusalReportedFull (resp : Bool → Str → Str → Str) : Prop :=
+  ∀ (op : Op) (R : List (Plugin Content)) (c : Content) (msg summary : Str) (detailed : Bool),
+    summary ≠ [] → (gated op R c).1 = .error msg → resp detailed summary msg ≠ []
 
-/-- witness: one plugin rejecting NewProxy with `reject_reason: ""`: the manager returns an error
-    whose text is empty, `GenerateResponseErrorString` copies it, the peer reads success. -/
-theorem refusal_reported_witness : ¬ RefusalReportedFull := by
+/-- witness against the pinned tree: one plugin rejecting NewProxy with `reject_reason: ""`: the
+    manager returns an error whose text is empty, the old `GenerateResponseErrorString` copies it,
+    the peer reads success. -/
+theorem refusal_reported_witness : ¬ RefusalReportedFull respErrorOld := by
   intro h
-  exact h .newProxy [Beh.toPlugin (.rej []) 1 [Op.newProxy.name]] ⟨[1], []⟩ [] [2] rfl rfl
+  exact h .newProxy [Beh.toPlugin (.rej []) 1 [Op.newProxy.name]] ⟨[1], []⟩ [] [2] true (by decide) rfl rfl
 
-/-- what does hold: a refusal is reported as an error unless the text is empty and the server
-    sends detailed errors; an empty text needs a reject with an empty reason
+/-- **the repaired code reports every refusal**: the error string is never empty -/
+theorem refusal_reported : RefusalReportedFull respError := by
+  intro op R c msg summary detailed hs _
+  unfold respError
+  split
+  · rename_i h; exact h.2
+  · exact hs
+
+/-- what held already on the pinned tree: a refusal is reported as an error unless the text is empty
+    and the server sends detailed errors; an empty text needs a reject with an empty reason
     (`empty_error_only_from_empty_reason`). -/
 theorem refusal_reported_partial (op : Op) (R : List (Plugin C)) (c : C) (msg summary : Str)
     (detailed : Bool) (_h : (gated op R c).1 = .error msg)
     (hne : (detailed = true ∧ msg ≠ []) ∨ (detailed = false ∧ summary ≠ [])) :
-    respError detailed summary msg ≠ [] := by
-  unfold respError
+    respErrorOld detailed summary msg ≠ [] := by
+  unfold respErrorOld
   rcases hne with ⟨h1, h2⟩ | ⟨h1, h2⟩
   · subst h1; simpa using h2
   · subst h1; simpa using h2
